@@ -145,6 +145,8 @@ def expected_line(key, full, unk, enabled):
         return default if default else "NULL"
     if kind == "D":
         return "1" if default else "0"
+    if kind == "Q":
+        return "0" if default else "-1"
     if kind == "N":
         return None                     # checked structurally below
     m = ORDER[int(f[1])]
@@ -197,6 +199,67 @@ def expected_line(key, full, unk, enabled):
     if kind == "H":
         return None                     # no generated setting to hash
     return None
+
+
+def level2(configs, full, unk, agg, st, t0, deadline_s, allh, prefix="level2", keep=None):
+    """build every configuration, run the transcript harness, compare each request with the model; KEEP filters request kinds"""
+    nbuilt = 0
+    for cfg in configs:
+        if time.time() - t0 > deadline_s * 0.9:
+            agg["complete"] = 0
+            break
+        mask = sum(1 << allh.index(h) for h in cfg)
+        tag = "cfg%04x" % mask
+        name = ",".join(cfg)
+        try:
+            var = build.build_variant("o1", hashes=list(cfg), tag=tag)
+            rc, tr = transcript(var, tag)
+        except build.BuildError as e:
+            agg["viols"].append((prefix + "/selection-does-not-build", dict(selection=name, error=str(e)[-800:], replay=prefix + ":" + name)))
+            continue
+        finally:
+            import shutil
+            shutil.rmtree(os.path.join(build.BUILD, "o1-" + tag), ignore_errors=True)
+        nbuilt += 1
+        st["evaluations"] += len(tr)
+        if rc != 0 or not set(tr) <= set(full) or len(tr) < 100:
+            agg["viols"].append((prefix + "/transcript-incomplete-or-crash", dict(selection=name, status=rc, lines=len(tr), replay=prefix + ":" + name)))
+            continue
+        en = set(cfg)
+        nbad = 0
+        for key in full:
+            if keep and key.split("|")[0] not in keep:
+                continue
+            want = expected_line(key, full, unk, en)
+            got = tr.get(key)
+            if key.startswith("H|"):
+                # a generated setting is hashed only when the generator succeeded
+                gkey = "G|%s|%s|0|%s" % (key.split("|")[1], key.split("|")[2], key.split("|")[3])
+                gen_ok = not tr.get(gkey, "NULL").startswith("NULL")
+                want = "hashes" if gen_ok else None
+                if want == got:
+                    continue
+            elif got is None:
+                want = want or "(a line)"
+            elif key.startswith("N|"):
+                default = next((TAGS[c] for c in DEFAULT_CANDIDATES if c in en), None)
+                ok = got.endswith("same-as-preferred") and ((got.startswith("NULL|22") and not default) or (default and got.startswith(default)))
+                if not ok:
+                    want = "NULL|22|same-as-preferred" if not default else default + "...|0|same-as-preferred"
+                else:
+                    continue
+            elif want is None or want == got:
+                continue
+            nbad += 1
+            if nbad <= 3:
+                f = key.split("|")
+                meth = ORDER[int(f[1])] if len(f) > 1 and f[1].isdigit() else f[0]
+                state = "enabled" if meth in en else "disabled"
+                agg["viols"].append((prefix + "/%s-method-misbehaves/%s/%s" % (state, meth, f[0]),
+                                     dict(selection=name, request=key, got=got, expected=want, replay=prefix + ":" + name)))
+        if nbuilt % 25 == 1:
+            agg["samples"].append({"selection": name, "requests_compared": len(full)})
+    return nbuilt
 
 
 def run(job, tier, deadline_s):
@@ -276,61 +339,40 @@ def run(job, tier, deadline_s):
     unk = dict(crypt=full["U|crypt"], gensalt=full["U|gensalt"], checksalt=full["U|checksalt"])
     st["transcript_requests"] = len(full)
     agg["samples"].append({"clusters": cls, "full_build_requests": len(full)})
-    nbuilt = 0
-    for cfg in configs:
-        if time.time() - t0 > deadline_s * 0.9:
-            agg["complete"] = 0
-            break
-        mask = sum(1 << allh.index(h) for h in cfg)
-        tag = "cfg%04x" % mask
-        name = ",".join(cfg)
-        try:
-            var = build.build_variant("o1", hashes=list(cfg), tag=tag)
-            rc, tr = transcript(var, tag)
-        except build.BuildError as e:
-            agg["viols"].append(("level2/selection-does-not-build", dict(selection=name, error=str(e)[-800:], replay="level2:" + name)))
-            continue
-        finally:
-            import shutil
-            shutil.rmtree(os.path.join(build.BUILD, "o1-" + tag), ignore_errors=True)
-        nbuilt += 1
-        st["evaluations"] += len(tr)
-        if rc != 0 or not set(tr) <= set(full) or len(tr) < 100:
-            agg["viols"].append(("level2/transcript-incomplete-or-crash", dict(selection=name, status=rc, lines=len(tr), replay="level2:" + name)))
-            continue
-        en = set(cfg)
-        nbad = 0
-        for key in full:
-            want = expected_line(key, full, unk, en)
-            got = tr.get(key)
-            if key.startswith("H|"):
-                # a generated setting is hashed only when the generator succeeded
-                gkey = "G|%s|%s|0|%s" % (key.split("|")[1], key.split("|")[2], key.split("|")[3])
-                gen_ok = not tr.get(gkey, "NULL").startswith("NULL")
-                want = "hashes" if gen_ok else None
-                if want == got:
-                    continue
-            elif got is None:
-                want = want or "(a line)"
-            elif key.startswith("N|"):
-                default = next((TAGS[c] for c in DEFAULT_CANDIDATES if c in en), None)
-                ok = got.endswith("same-as-preferred") and ((got.startswith("NULL|22") and not default) or (default and got.startswith(default)))
-                if not ok:
-                    want = "NULL|22|same-as-preferred" if not default else default + "...|0|same-as-preferred"
-                else:
-                    continue
-            elif want is None or want == got:
-                continue
-            nbad += 1
-            if nbad <= 3:
-                f = key.split("|")
-                meth = ORDER[int(f[1])] if len(f) > 1 and f[1].isdigit() else f[0]
-                state = "enabled" if meth in en else "disabled"
-                agg["viols"].append(("level2/%s-method-misbehaves/%s/%s" % (state, meth, f[0]),
-                                     dict(selection=name, request=key, got=got, expected=want, replay="level2:" + name)))
-        if nbuilt % 25 == 1:
-            agg["samples"].append({"selection": name, "requests_compared": len(full)})
+    nbuilt = level2(configs, full, unk, agg, st, t0, deadline_s, allh)
     st["level2_built"] = nbuilt
     st["distinct_nontrivial"] = nbuilt + st["level1_selections"]
+    agg["wall"] = time.time() - t0
+    return agg
+
+
+def run_c18(job, tier, deadline_s):
+    """C18 over build configurations: every subset of the default-capable methods against several backgrounds; only the
+    requests C18 speaks about (preferred method, its checksalt class, NULL-prefix generation, the header macro, checksalt of
+    every method's settings) are compared."""
+    t0 = time.time()
+    agg = dict(stats={}, samples=[], viols=[], done=1, complete=1, errors=[], stderr=[], hsets={}, nshards=1)
+    st = agg["stats"]
+    st["evaluations"] = 0
+    allh = sorted(TAGS)
+    cands = list(DEFAULT_CANDIDATES)
+    backgrounds = [(), ("gost_yescrypt", "scrypt", "bcrypt_a", "sha256crypt", "descrypt")]
+    if tier == "thorough":
+        backgrounds += [("gost_yescrypt",), ("bcrypt_y", "bcrypt_x", "md5crypt", "nt"), tuple(h for h in allh if h not in cands)]
+    configs = []
+    for r in range(0, len(cands) + 1):
+        for s in itertools.combinations(cands, r):
+            for b in backgrounds:
+                configs.append(tuple(sorted(set(s) | set(b))))
+    configs = [c for c in dict.fromkeys(configs) if c and len(c) < 16]
+    st["c18_configurations"] = len(configs)
+    full_var = build.build_variant("o1")
+    rc, full = transcript(full_var, "full")
+    if rc != 0 or len(full) < 500:
+        agg["errors"].append("full-build transcript failed (%d lines)" % len(full))
+        return agg
+    unk = dict(crypt=full["U|crypt"], gensalt=full["U|gensalt"], checksalt=full["U|checksalt"])
+    st["c18_built"] = level2(configs, full, unk, agg, st, t0, deadline_s, allh, prefix="configuration", keep=("P", "Q", "N", "D", "K"))
+    agg["samples"].append({"configurations": [",".join(c) for c in configs[:6]], "requests": "P Q N D K"})
     agg["wall"] = time.time() - t0
     return agg
